@@ -3,7 +3,9 @@ package chain
 import (
 	"bytes"
 	"fmt"
+	"time"
 
+	"github.com/gnolang/gno/tm2/pkg/std"
 	stypes "github.com/gnolang/gno/tm2/pkg/store/types"
 
 	"verif/sim/kernel"
@@ -124,9 +126,121 @@ func runCrash(c *kernel.Choices, p kernel.Params) *kernel.Result {
 			}
 		}
 	}
+	// 3. the first commit of a chain (InitChain's state: by far the largest commit a node ever makes), in a third of the runs
+	if !w.stop && c.Chance(1, 3) {
+		w.genesisCommitCrashes(maxGas)
+	}
 	w.r.Nontrivial = w.r.Faults["crash_in_commit"] > 0 && len(hist) >= 3
 	w.r.Sample = map[string]any{"events": c.Log[:min(len(c.Log), 30)]}
 	return w.r
+}
+
+// genesisNode runs InitChain of the harness genesis on a node over disk and stops right before the first Commit.
+func genesisNode(name string, disk *simdb.Disk, maxGas int64) (*node, blockSpec) {
+	n, err := newNode(name, disk)
+	if err != nil {
+		kernel.Harnessf("genesis app: %v", err)
+	}
+	acts := newActors()
+	g := genesisSpec{Balance: genesisBalance, MaxGas: maxGas,
+		Packages: []*std.MemPackage{readRealm(gnoDir("lib"), libPath), readRealm(gnoDir("box"), boxPath)}}
+	for _, nm := range actorNames {
+		if nm != "dave" {
+			g.Actors = append(g.Actors, acts[nm])
+		}
+	}
+	if res := n.initChain(g, g.state()); res.Error != nil {
+		kernel.Harnessf("InitChain: %v", res.Error)
+	}
+	b := blockSpec{Height: 1, Time: genesisTime.Add(time.Second)}
+	n.beginBlock(b)
+	return n, b
+}
+
+// genesisCommitCrashes: the process dies when it is about to issue the k-th physical write of the chain's FIRST
+// commit (k = 1 .. number of writes that commit issues, at most 4 of them, plus "right after the last"). The disk a
+// restarted node finds must be either untouched (nothing of the genesis state, LastCommitID 0) or the complete
+// first version, equal to the image every other run of this worker starts from.
+func (w *world) genesisCommitCrashes(maxGas int64) {
+	c := w.c
+	mach := simdb.NewMachine()
+	refDisk := simdb.NewDisk("gen-ref", mach)
+	n, b := genesisNode("gen-ref", refDisk, maxGas)
+	before := mach.Ops
+	hash := n.endBlockCommit(b)
+	nops := mach.Ops - before
+	n.app.Close()
+	if !bytes.Equal(hash, w.img.hash) {
+		kernel.Harnessf("genesis commit hash %X differs from the worker's base image %X", hash, w.img.hash)
+	}
+	w.r.Probes["genesis_commit_physical_ops"] += int(nops)
+	c.Event("genesis commit issues %d physical ops", nops)
+	refAu, err := newAuditor(refDisk, 1)
+	if err != nil {
+		kernel.Harnessf("auditor over the genesis image: %v", err)
+	}
+	want := refAu.dump()
+	top := nops + 1
+	if top > 5 {
+		top = 5
+	}
+	for k := uint64(1); k <= top && !w.stop; k++ {
+		power := c.Bool()
+		m2 := simdb.NewMachine()
+		disk := simdb.NewDisk("gen-crash", m2)
+		n2, b2 := genesisNode("gen-crash", disk, maxGas)
+		m2.CrashAt = m2.Ops + k
+		crashed := guardCrash(func() { n2.endBlockCommit(b2) })
+		if !crashed {
+			m2.CrashAt = 0
+			n2.app.Close() // k = nops+1: every write was issued; the process dies right after
+		}
+		keep := disk.Unsynced()
+		if power && keep > 0 {
+			keep = c.Intn(keep + 1)
+		}
+		disk.Crash(keep)
+		m2.Reboot()
+		w.r.Fault("crash_in_commit")
+		w.r.Fault("crash_in_genesis_commit")
+		c.Event("genesis commit: crash at physical op %d of %d (power loss=%v)", k, nops, power)
+		var re *node
+		if pmsg := catchPanic(func() { re, err = newNode("gen-reopen", disk) }); pmsg != "" || err != nil {
+			w.fail("C27", "genesis-reopen-fails", "crash at physical op %d of %d of the first commit (power loss=%v): the node does not reopen: %v %s", k, nops, power, err, clip(pmsg, 300))
+			return
+		}
+		switch {
+		case re.height == 0:
+			if disk.Len() != 0 {
+				w.fail("C27", "torn-genesis", "crash at physical op %d of %d of the first commit (power loss=%v): the node reopens at height 0 but %d keys of the unfinished genesis state are on disk", k, nops, power, disk.Len())
+				re.app.Close()
+				return
+			}
+			w.r.Probe("recovered_at_previous_version")
+		case re.height == 1:
+			if !bytes.Equal(re.last, hash) {
+				w.fail("C27", "torn-genesis", "crash at physical op %d of %d of the first commit: reopened at height 1 with hash %X, the uncrashed commit has %X", k, nops, re.last, hash)
+				re.app.Close()
+				return
+			}
+			au, aerr := newAuditor(disk, 1)
+			if aerr != nil {
+				w.fail("C27", "audit-store-unloadable", "genesis commit crash op %d: independent multistore does not load: %v", k, aerr)
+				re.app.Close()
+				return
+			}
+			if d := diffKeys(want, au.dump()); len(d) > 0 {
+				w.fail("C27", "torn-genesis", "crash at physical op %d of %d of the first commit (power loss=%v): recovered at height 1 but %d logical keys differ from the uncrashed genesis, first %s", k, nops, power, len(d), shortKey(d[0]))
+				re.app.Close()
+				return
+			}
+			w.r.Probe("recovered_at_new_version")
+		default:
+			w.fail("C27", "torn-genesis", "crash in the first commit: reopened at height %d", re.height)
+		}
+		re.app.Close()
+		w.r.Probe("crash_points_enumerated")
+	}
 }
 
 func catchPanic(f func()) (msg string) {
